@@ -155,6 +155,9 @@ func candidateInvariants(fn *ssa.Function, hd *ssa.BasicBlock, site ssa.Instruct
 		out = append(out, func(p *prover, s map[ssa.Value]ssa.Value) linExpr {
 			return with(p, s, func() linExpr { return p.lin(ph) }) // φ >= 0
 		})
+		out = append(out, func(p *prover, s map[ssa.Value]ssa.Value) linExpr {
+			return with(p, s, func() linExpr { return p.lin(ph).add(newLin(1), 1) }) // φ >= -1 (index-or-not-found variables)
+		})
 		seenB := map[ssa.Value]bool{}
 		for _, b := range bases {
 			b := b
